@@ -293,3 +293,40 @@ def alpha_src(beta: Beta, op: str, arg_node, site=None):
             es.append(alpha_entry(beta, vn, k, site))
         return {"def": True, "e": es}
     raise ValueError(op)
+
+
+# ---------------------------------------------------------------------------------------------------
+# file layouts (C03): attributes of the surrounding file that must not matter
+LAYOUTS = ["ff", "ls", "nonascii", "tabs", "crlf", "cr", "nonl", "bom", "widechars", "comment-tail"]
+
+
+def apply_layout(text: str, attrs, rng: random.Random) -> str:
+    """re-layout a rendered module without changing its meaning"""
+    lines = text.split("\n")
+    out = []
+    for l in lines:
+        if "nonascii" in attrs and l.lstrip().startswith("return snapshot("):
+            ind = l[: len(l) - len(l.lstrip())]
+            l = ind + '_u = "äöü—漢字😀"; ' + l.lstrip()
+        if "widechars" in attrs and l.startswith("_s") and " = snapshot(" in l:
+            l = '_ü = "𝔘😀𝔘"; ' + l
+        if "comment-tail" in attrs and "snapshot(" in l and not l.rstrip().endswith(":"):
+            l = l + "  # ← kept — comment ✓"
+        out.append(l)
+    text = "\n".join(out)
+    if "ff" in attrs:
+        text = text.replace("\ndef test_1", "\n\x0c\ndef test_1", 1).replace("\nimport verif_rec", "\n\x0c\nimport verif_rec", 1)
+    if "ls" in attrs:
+        text = text.replace("import verif_rec as _r\n", 'import verif_rec as _r\n\n# separators \u2028 inside \x85 a comment \x1c\n_z = "a\u2028b\x0bc\x1dd\u2029"\n', 1)
+    if "tabs" in attrs:
+        text = "\n".join(("\t" * ((len(l) - len(l.lstrip(" "))) // 4) + l.lstrip(" ")) if l.startswith("    ") else l
+                         for l in text.split("\n"))
+    if "nonl" in attrs:
+        text = text.rstrip("\n")
+    if "bom" in attrs:
+        text = "\ufeff" + text
+    if "crlf" in attrs:
+        text = text.replace("\n", "\r\n")
+    elif "cr" in attrs:
+        text = text.replace("\n", "\r")
+    return text
